@@ -1,6 +1,6 @@
 (** Extraction of the C16 models (reference verifier, converter image, translator) for the
     correspondence check.  [ExtrOcamlBasic] only; N/positive/nat stay Coq inductives. *)
 From Coq Require Import Extraction ExtrOcamlBasic.
-From Pi2 Require Import ML.Syntax ML.Subst ML.Machine MM16.Verify MM16.Convert MM16.Instr MM16.Translate.
+From Pi2 Require Import ML.Syntax ML.Subst ML.Machine MM16.Verify MM16.Convert MM16.Instr MM16.Translate MM16.Fragment.
 Extraction Language OCaml.
-Extraction "mm16_model.ml" mm_verify translate_gen spec_images verify guards_sound img env_of.
+Extraction "mm16_model.ml" mm_verify translate_gen spec_images verify guards_sound img env_of in_fragment.
